@@ -47,7 +47,7 @@ def cases(tier, rng):
     nrand = 250 if tier == "quick" else 2500
     for t in range(nrand):
         mx = 8 if tier == "quick" else 20
-        nr, nc = rng.randint(2, mx), rng.randint(2, mx)
+        nr, nc = nets.rshape(rng, 2, mx, 0.15)
         n = nr * nc
         hi = rng.choice([2, 4, 9, 30])
         pn = rng.choice([0, 0.05, 0.2])
